@@ -54,6 +54,9 @@ func init() {
 			{ID: "R02i", Floor: 1, Doc: "no Read whose byte count is thrown away: an io.Reader may return fewer bytes than asked for with a nil error, so a library call of Read that ignores n has read an unknown part of what it then decodes (fixed-size fields are read with io.ReadFull / binary.Read); the one site of the pinned tree is tabled", Run: ruleR02i},
 			{ID: "R02j", Floor: 2, Doc: "the error of a reader or loader is not replaced by the outcome of a deferred step: a truncated or corrupt archive must not come back as success because a deferred flush succeeded (= R16g)", Run: ruleR16g},
 			{ID: "R02k", Floor: 1, Doc: "a reader does not keep a pooled buffer it has given back: the next reader to take it from the pool would have its bytes consumed by this one (= R01m)", Run: ruleR01m},
+			{ID: "R02l", Floor: 1, Doc: "the stdin loader of `car extract` marks its input as cleanly consumed only on the io.EOF outcome of BlockReader.Next: any other failure of the verifying reader must not look like the end of the archive to the reads that wait for blocks", Run: ruleR02l},
+			{ID: "R02m", Floor: 1, Doc: "Inspect keeps nothing between calls: it assigns no field of its Reader, so a full (hash-validating) inspection cannot be answered from an earlier quick one", Run: ruleR02m},
+			{ID: "R02n", Floor: 1, Doc: "the verifying readers keep no result between calls beyond what the pinned tree keeps (= R08o)", Run: ruleR08o},
 		},
 	})
 }
@@ -152,7 +155,7 @@ func checkHashGate(c *Ctx, r *Report, fn *ssa.Function, bypass bool) {
 				if !ok || found {
 					return
 				}
-				h := ci.Common().StaticCallee()
+				h := staticTarget(ci.Common())
 				if h == nil || h.Blocks == nil || h.Pkg != fn.Pkg {
 					return
 				}
